@@ -18,7 +18,7 @@ else
   L=/tmp/mutlab; V=$L/verif; mkdir -p $L
   [ -d $L/repo ] || git -C /repo worktree add -q --detach $L/repo HEAD
   (cd $L/repo && git checkout -q --detach "$(git -C /repo rev-parse HEAD)" && git checkout -- . && git clean -fdq -e target)
-  mkdir -p $V && rsync -a --delete --exclude 'harness/target' --exclude 'harness/fuzz/target' --exclude 'harness/fuzz/corpus' --exclude 'harness/fuzz/artifacts' --exclude '.git' --exclude 'replays/found' --exclude 'design-probes' /verif/ $V/
+  mkdir -p $V && rsync -a --delete --exclude 'harness/target' --exclude 'harness/fuzz/target' --exclude 'harness/fuzz/corpus' --exclude 'harness/fuzz/artifacts' --exclude '.git' --exclude 'replays/found' --exclude 'design-probes' ${VERIF_SRC:-/verif}/ $V/
   sed -i "s#path = \"/repo\"#path = \"$L/repo\"#" $V/harness/Cargo.toml $V/typecheck/Cargo.toml
   (cd $L/repo && git apply "$PATCH") || { echo "patch does not apply"; exit 2; }
   trap '(cd /tmp/mutlab/repo && git checkout -- .)' EXIT
